@@ -7,7 +7,7 @@ from ..strlang import Obj, ListOf, Join, Slot, Lit, Alt, Cat
 
 META = {
     'design_ref': 'DESIGN.md §5 C13',
-    'technique': 'writer template of PkgRelation.str extracted by abstract interpretation and compared with __dep_RE by marked-language capture agreement; join/split agreement of the four separator levels decided on automata; parse_relations interpreted on symbolic strings (structural regex split, stubbed match objects) against the documented structure; frame rule (no memo in parse/format); the empty relationship list through writer and reader, both interpreted; delimiter searches on the text of one dependency against the characters its regex can match; frame rule also for mutable class-level objects handed out as results; PkgRelation.str interpreted on the documented plain pairs and on named tuples; parse_relations and str interpreted on relation fields put together from the grammar, two of them with 300 pieces; the language-level readings are a second opinion where reader or writer leave their vocabulary',
+    'technique': 'writer template of PkgRelation.str extracted by abstract interpretation and compared with __dep_RE by marked-language capture agreement; join/split agreement of the four separator levels decided on automata; parse_relations interpreted on symbolic strings (structural regex split, stubbed match objects) against the documented structure; frame rule (no memo in parse/format); the empty relationship list through writer and reader, both interpreted; delimiter searches on the text of one dependency against the characters its regex can match; frame rule also for mutable class-level objects handed out as results; PkgRelation.str interpreted on the documented plain pairs and on named tuples; parse_relations and str interpreted on relation fields put together from the grammar, two of them with 300 pieces; the language-level readings are a second opinion where reader or writer leave their vocabulary; restriction formulas of three and four groups',
     'level_text': 'Static decision for all relation structures of the stated domain: every string str() can emit for one dependency is '
                   'matched by __dep_RE (no warning path) and every parse puts name, arch qualifier, operator, version, architecture '
                   'list and restriction formula on exactly the written parts; the separators written between the list levels are split '
@@ -253,7 +253,7 @@ def _regex_named(src, groups):
     return found[0]['binding'].split('.')[-1]
 
 
-def r3_mapping(rep, src):
+def r3_mapping(rep, src, rep_raise=None):
     """parse_relations interpreted on symbolic strings.  The text of one field is  D1 ", " D2 " | " D3  (pieces free of
     separators); __dep_RE.match is replaced by a stub whose groupdict() holds one symbolic atom per group (what the groups
     capture is decided by R1/R2), the other regexes are applied structurally (split) or per scenario (restriction term).
@@ -321,7 +321,9 @@ def r3_mapping(rep, src):
     try:
         res = it.call(H.Closure(fp.node, {}, None, fp.cls), [('class', 'PkgRelation'), raw])
     except H.Raised as x:
-        rep.fail('C13.R3', fp.site, 'parse_relations on "D1, D2 | D3"', 'raises %s (line %d)' % (x.exc, x.lineno), where=fp.where)
+        # (the scenario stands on stand-ins for the two patterns as they are used today: when the reader cuts a formula some other way
+        # it ends in an exception of the stand-ins, not of the reader -- decided on the interpreted fields then)
+        (rep_raise or rep).fail('C13.R3', fp.site, 'parse_relations on "D1, D2 | D3"', 'raises %s (line %d)' % (x.exc, x.lineno), where=fp.where)
         return
 
     def plain(v):
@@ -614,7 +616,7 @@ def check(src, rep, tier):
     # for the two patterns as they are used today; the interpreted fields decide when the reader cuts a formula some other way)
     n_r3 = sum(1 for i_ in rep.instances if i_.get('rule') == 'C13.R3')
     soft3 = common.SoftAll(rep, lambda: fields_hold, 'the interpreted relation fields (C13.R8), which are read as written')
-    soft3.guard('C13.R3', r3_mapping, src)
+    rep.guard('C13.R3', r3_mapping, src, soft3)
     rep.guard('C13.R6', r6_delimiter_searches, src)
     rep.guard('C13.R7', r7_documented_encoding, src)
     from . import common as _common_flags
